@@ -297,14 +297,20 @@ def _get_schema_or_none(
 
 
 def _default(f_type: Type, f_value: Any, config_cls: Type[BaseConfig]) -> Any:
+    if f_value is None:
+        return None
+
+    # the field has no default here, so that omit_default / omit_none coming
+    # from the owner's config never drop it, and an alias may rename it
     @dataclass
     class CC(DataClassJSONMixin):
-        x: f_type = f_value  # type: ignore
+        x: f_type  # type: ignore
 
         class Config(config_cls):  # type: ignore
             pass
 
-    return CC(f_value).to_dict()["x"]
+    (value,) = CC(f_value).to_dict().values()
+    return value
 
 
 Registry = InstanceSchemaCreatorRegistry()
